@@ -19,6 +19,7 @@ import ModVerif.Proofs.EditRefineInvWork
 import ModVerif.Proofs.EditMoreStartW
 import ModVerif.Proofs.EditMoreSepG
 import ModVerif.Proofs.EditMoreNoPanic
+import ModVerif.Proofs.EditMarkerInv
 namespace ModVerif.Props.C15
 open ModVerif ModVerif.EditSpec ModVerif.Modfile
 
@@ -398,5 +399,113 @@ example :
       .cleanup, .setRequire [⟨B "b", B "v1.1.0", false⟩, ⟨B "c", B "v1.0.0", true⟩] true, .dropRequire (B "c"), .cleanup,
       .setRequireSeparateIndirect [⟨B "d", B "v1.0.0", true⟩] false]
     Edit.runValidB (Edit.load {}) ops = true := by decide +kernel
+
+/-! ### Closing `NoNestedIndirectMarker` along a session (Proofs/EditMarkerStr.lean, Proofs/EditMarkerInv.lean)
+
+    `Edit.MarkersSettable stmts`: on the end-of-line comments of every `Line` of the tree `setIndirect` achieves what it is
+    asked for (`∀ b, isIndirectS (sfxAfter b s) = b`; false exactly for a comment whose text after `indirect;` is again an
+    indirect marker, the recorded finding `C16_violated_indirect_marker_survives`).  It is a static, decidable condition on
+    the parsed file and is preserved by EVERY go.mod operation, so the state-dependent marker clause of `Edit.RunValid` is
+    redundant (`Edit.RunValidLive`), and the remaining state-dependent clause (a bulk setter runs on live requirements) can be
+    read off the operation list (`Edit.StaticValid`: the bulk setter comes directly after a Cleanup). -/
+
+/-- the string lemmas the closure rests on, for EVERY byte string (ill-formed UTF-8 included): `strings.Fields` does not
+    see what `strings.TrimSpace` removed, and a comment text starting with `indirect; ` never trims to the bare marker -/
+theorem marker_string_lemmas (y t : Bytes) :
+    GoStrings.fields (B " " ++ GoStrings.trimSpace y) = GoStrings.fields y ∧
+    GoStrings.trimSpace (B "indirect; " ++ t) ≠ B "indirect" ∧
+    GoStrings.fields (B "indirect; " ++ t) = B "indirect;" :: GoStrings.fields t := by
+  have h1 : B " " = [32] := by decide +kernel
+  have h2 : B "indirect; " = Edit.markerSemi ++ [32] := by decide +kernel
+  rw [h1, h2, Edit.B_indirect, Edit.B_indirectSemi]
+  simp only [List.singleton_append, List.append_assoc]
+  exact ⟨Edit.fields_space_trimSpace y, Edit.trimSpace_marker_ne t, Edit.fields_marker t⟩
+
+/-- `setIndirect` maps end-of-line comments on which it achieves what it is asked for to such comments again -/
+theorem markerSettable_closed (b : Bool) (s : List Comment) (h : Edit.MarkerSettable s) :
+    Edit.MarkerSettable (Edit.sfxAfter b s) :=
+  Edit.markerSettable_sfxAfter b s h
+
+example : Edit.MarkerSettable [{ token := B "// indirect; why" }] ∧ Edit.MarkerSettable [{ token := [47, 47, 32, 0xe3, 0x80, 32, 119, 32, 0xc2, 0xa0] }] := by
+  decide +kernel
+
+/-- **one operation preserves the marker condition — EVERY go.mod operation, no hypothesis on the arguments**; in
+    particular `NoNestedIndirectMarker` holds in the state after the operation -/
+theorem op_preserves_markers (e e' : Edit.EFile) (op : Edit.Op) (hi : Edit.Inv e) (hm : Edit.MarkersSettable e.f.syn.stmts)
+    (h : Edit.applyMod e op = some (.ok e')) :
+    Edit.MarkersSettable e'.f.syn.stmts ∧ Edit.NoNestedIndirectMarker e' :=
+  ⟨Edit.applyMod_good e e' op hi hm h, (Edit.applyMod_good e e' op hi hm h).noNested⟩
+
+/-- **typed_eq_tree (partial 4): the marker hypothesis is a condition on the STARTING FILE only.**  As
+    `typed_eq_tree_partial3`, with `Edit.RunValidLive` (`RunValid` without `NoNestedIndirectMarker`) and the static,
+    decidable `Edit.MarkersSettable f.syn.stmts` on the parsed file; the condition holds again at the end.
+    Still missing for the full C15 statement: the fixer case of `parseStrict_inv`, and the print/parse round trip of the
+    tree (C02), where the recorded rationale / marker findings live. -/
+theorem typed_eq_tree_partial4 (name data : Bytes) (f : File) (ops : List Edit.Op) (e' : Edit.EFile) (res : List Bool)
+    (hf : parseToFile name data none true = .ok f) (hk : Edit.WellFormedKeys f) (hs : Edit.NoBlockSuffix f.syn)
+    (hm : Edit.MarkersSettable f.syn.stmts)
+    (hv : Edit.RunValidLive (Edit.load f) ops) (h : Edit.runOps Edit.applyMod (Edit.load f) ops [] 0 = .done e' res) :
+    Edit.Inv (Edit.cleanup e') ∧ Edit.MarkersSettable (Edit.cleanup e').f.syn.stmts :=
+  Edit.typed_eq_tree_live (Edit.load f) e' ops res (Edit.parseStrict_inv hf hk hs) ((Edit.markersSettable_load f).2 hm) hv h
+
+/-- **typed_eq_tree (partial 4, static form): every hypothesis is a condition on the starting file or on the operation
+    list.**  `Edit.StaticValid false ops`: the arguments are valid (`ValidArgsT`); a bulk requirement setter has distinct
+    non-empty paths and comes directly after a Cleanup (which makes every typed requirement live:
+    `cleanup_makes_requirements_live`). -/
+theorem typed_eq_tree_partial4_static (name data : Bytes) (f : File) (ops : List Edit.Op) (e' : Edit.EFile) (res : List Bool)
+    (hf : parseToFile name data none true = .ok f) (hk : Edit.WellFormedKeys f) (hs : Edit.NoBlockSuffix f.syn)
+    (hm : Edit.MarkersSettable f.syn.stmts) (hv : Edit.StaticValid false ops)
+    (h : Edit.runOps Edit.applyMod (Edit.load f) ops [] 0 = .done e' res) :
+    Edit.Inv (Edit.cleanup e') ∧ Edit.MarkersSettable (Edit.cleanup e').f.syn.stmts :=
+  typed_eq_tree_partial4 name data f ops e' res hf hk hs hm
+    (Edit.StaticValid.runValidLive ops false (Edit.load f) hv (fun hc => by cases hc)) h
+
+/-- **nilDeref_unreachable (partial 3): no state-dependent hypothesis.**  From a state satisfying the invariant whose lines
+    have settable markers, a session of go.mod operations with statically valid arguments (`Edit.StaticValid`: bulk setters
+    directly after a Cleanup, with distinct non-empty paths) ALWAYS runs to completion — no nil `Syntax` dereference, no
+    "two versions" panic, no `ensureBlock` on an unexpected statement — and ends in a state satisfying the invariant.
+    Missing for the full statement: the marker condition on the START state is only needed because `Inv` contains the
+    marker clause; it plays no role in the panics. -/
+theorem nilDeref_unreachable_partial3 (e : Edit.EFile) (ops : List Edit.Op) (hi : Edit.Inv e)
+    (hm : Edit.MarkersSettable e.f.syn.stmts) (hv : Edit.StaticValid false ops) (hmod : ∀ op ∈ ops, Edit.IsModOp op) :
+    ∃ e' res, Edit.runOps Edit.applyMod e ops [] 0 = .done e' res ∧ Edit.Inv (Edit.cleanup e') := by
+  have hl := Edit.StaticValid.runValidLive ops false e hv (fun hc => by cases hc)
+  rcases Edit.runOps_total_live ops e hl hmod hi hm with ⟨e', res, h⟩
+  exact ⟨e', res, h, (Edit.typed_eq_tree_live e e' ops res hi hm hl h).1⟩
+
+/-- non-vacuity of `typed_eq_tree_partial4(_static)` / `op_preserves_markers`: a parsed go.mod (blocks, comments, an
+    `// indirect; why` marker that SetRequireSeparateIndirect removes and SetRequire puts back) satisfies the start
+    conditions, the session (both bulk setters, each directly after a Cleanup) is statically valid and runs to completion -/
+example :
+    (match parseToFile (B "go.mod") (B "module \"example.com/m\"\n\ngo 1.21\n\nrequire (\n\texample.com/a v1.0.0 // indirect; why\n\t// keep\n\texample.com/b v1.2.3\n)\nrequire example.com/c v1.0.0 // c\nexclude example.com/b v1.0.0\nretract [v1.1.0, v1.2.0] // bad\n") none true with
+     | .ok f =>
+       Edit.startOKb f && f.syn.stmts.all (fun x => match x with
+         | .lineBlock b => b.comments.suffix.isEmpty
+         | _ => true) &&
+       decide (Edit.MarkersSettable f.syn.stmts) &&
+       (let ops : List Edit.Op := [.addRequire (B "example.com/d") (B "v1.0.0"), .cleanup,
+          .setRequireSeparateIndirect [⟨B "example.com/a", B "v1.4.0", false⟩, ⟨B "example.com/e", B "v1.0.0", true⟩, ⟨B "example.com/c", B "v1.0.0", true⟩] true,
+          .cleanup, .setRequire [⟨B "example.com/a", B "v1.5.0", true⟩] false, .addTool (B "example.com/t"), .cleanup]
+        Edit.staticValidB false ops &&
+        (match Edit.runOps Edit.applyMod (Edit.load f) ops [] 0 with
+         | .done e res => res.all id && Edit.invB e && decide (Edit.MarkersSettable e.f.syn.stmts)
+         | _ => false))
+     | .error _ => false) = true := by decide +kernel
+
+/-- the start condition excludes the recorded finding (and only comments of that kind): the file of
+    `Props.C16.C16_violated_indirect_marker_survives` is not `MarkersSettable` -/
+example :
+    (match parseToFile (B "go.mod") (B "module m\nrequire a.b/c v1.0.0 // indirect; indirect\n") none true with
+     | .ok f => !decide (Edit.MarkersSettable f.syn.stmts)
+     | .error _ => false) = true := by decide +kernel
+
+/-- non-vacuity of `nilDeref_unreachable_partial3`: the session of the `partial2` example is statically valid, consists of
+    go.mod operations, and the empty file satisfies the start conditions -/
+example :
+    let ops : List Edit.Op := [.addRequire (B "a") (B "v1.0.0"), .addNewRequire (B "b") (B "v1.0.0") true, .dropRequire (B "a"),
+      .cleanup, .setRequire [⟨B "b", B "v1.1.0", false⟩, ⟨B "c", B "v1.0.0", true⟩] true, .dropRequire (B "c"), .cleanup,
+      .setRequireSeparateIndirect [⟨B "d", B "v1.0.0", true⟩] false]
+    Edit.staticValidB false ops = true ∧ Edit.MarkersSettable (Edit.load {}).f.syn.stmts := by
+  constructor <;> decide +kernel
 
 end ModVerif.Props.C15
